@@ -267,7 +267,27 @@ func NewCase(g *Gen, id int, forceValidate *bool) *Case {
 	// legitimately hand out after arbitrary earlier executions)
 	c.PoolMode = Pick(g.R, []string{"fresh", "recycled", "dirty", "dirty"})
 	poolMode := c.PoolMode
+	// the schema value is not tied to one destination type: sometimes it first meets a second
+	// destination type with the same fields laid out in the opposite order
+	altFirst := len(structs) > 0 && g.R.P(20)
+	altT := TypeOfAlt(n)
+	var altDest0 reflect.Value
+	if altFirst {
+		if validate {
+			altDest0 = g.DestValue(n, altT, false)
+		} else {
+			altDest0 = reflect.Zero(altT)
+		}
+		c.Shape += ":altfirst"
+	}
 	run := func() (Observed, map[*Node][]string, bool) {
+		if altFirst {
+			var d any
+			if !validate {
+				d = c.In.Go(nil)
+			}
+			Exec(schema, validate, d, copyDest(altT, altDest0), rec, opts...)
+		}
 		switch poolMode {
 		case "fresh":
 			internals.ClearPools()
